@@ -552,109 +552,30 @@ func (s *Scanner) ScanSQL(sql string) *ScanResult {
 	return result
 }
 
-// scanStatement analyzes a single statement for injection patterns.
+// scanStatement applies the node-level checks to every node of the statement, wherever
+// it sits: conditions and calls in any clause (WHERE, HAVING, JOIN ON, select items,
+// ORDER BY, GROUP BY, VALUES, SET, CASE, IN lists, BETWEEN bounds, function arguments)
+// of the statement itself and of every nested statement (sub-queries, derived tables,
+// CTE bodies, INSERT ... SELECT, both arms of set operations).
 func (s *Scanner) scanStatement(stmt ast.Statement, result *ScanResult) {
-	switch st := stmt.(type) {
-	case *ast.SelectStatement:
-		s.scanSelectStatement(st, result)
-	case *ast.InsertStatement:
-		s.scanInsertStatement(st, result)
-	case *ast.UpdateStatement:
-		s.scanUpdateStatement(st, result)
-	case *ast.DeleteStatement:
-		s.scanDeleteStatement(st, result)
-	case *ast.SetOperation:
-		s.scanSetOperation(st, result)
-	}
-}
-
-// scanSelectStatement analyzes SELECT for injection patterns.
-func (s *Scanner) scanSelectStatement(stmt *ast.SelectStatement, result *ScanResult) {
-	// Check WHERE clause for tautologies
-	if stmt.Where != nil {
-		s.scanExpression(stmt.Where, result, "WHERE clause")
-	}
-
-	// Check HAVING clause
-	if stmt.Having != nil {
-		s.scanExpression(stmt.Having, result, "HAVING clause")
-	}
-
-	// Check for suspicious function calls in columns
-	for _, col := range stmt.Columns {
-		s.scanExpressionForDangerousFunctions(col, result)
-	}
-}
-
-// scanInsertStatement analyzes INSERT for injection patterns.
-func (s *Scanner) scanInsertStatement(stmt *ast.InsertStatement, result *ScanResult) {
-	// Check values for suspicious patterns (multi-row support)
-	for _, row := range stmt.Values {
-		for _, val := range row {
-			s.scanExpressionForDangerousFunctions(val, result)
+	ast.Inspect(stmt, func(n ast.Node) bool {
+		switch e := n.(type) {
+		case *ast.BinaryExpression:
+			s.scanBinaryExpression(e, result)
+		case *ast.FunctionCall:
+			s.scanFunctionCall(e, result)
+		case *ast.SetOperation:
+			// UNION-based injection detection
+			if strings.ToUpper(e.Operator) == "UNION" {
+				s.checkUnionInjection(e, result)
+			}
 		}
-	}
-}
-
-// scanUpdateStatement analyzes UPDATE for injection patterns.
-func (s *Scanner) scanUpdateStatement(stmt *ast.UpdateStatement, result *ScanResult) {
-	// Check WHERE clause
-	if stmt.Where != nil {
-		s.scanExpression(stmt.Where, result, "WHERE clause")
-	}
-
-	// Check SET values
-	for _, assignment := range stmt.Assignments {
-		s.scanExpressionForDangerousFunctions(assignment.Value, result)
-	}
-}
-
-// scanDeleteStatement analyzes DELETE for injection patterns.
-func (s *Scanner) scanDeleteStatement(stmt *ast.DeleteStatement, result *ScanResult) {
-	// Check WHERE clause
-	if stmt.Where != nil {
-		s.scanExpression(stmt.Where, result, "WHERE clause")
-	}
-}
-
-// scanSetOperation analyzes UNION/EXCEPT/INTERSECT for injection patterns.
-func (s *Scanner) scanSetOperation(stmt *ast.SetOperation, result *ScanResult) {
-	// UNION-based injection detection
-	if strings.ToUpper(stmt.Operator) == "UNION" {
-		// Check if UNION might be used for data extraction
-		s.checkUnionInjection(stmt, result)
-	}
-
-	// Recursively scan left and right statements
-	// Note: SetOperation.Left and .Right are already ast.Statement type
-	if stmt.Left != nil {
-		s.scanStatement(stmt.Left, result)
-	}
-	if stmt.Right != nil {
-		s.scanStatement(stmt.Right, result)
-	}
-}
-
-// scanExpression analyzes an expression for injection patterns.
-func (s *Scanner) scanExpression(expr ast.Expression, result *ScanResult, context string) {
-	if expr == nil {
-		return
-	}
-
-	switch e := expr.(type) {
-	case *ast.BinaryExpression:
-		s.scanBinaryExpression(e, result, context)
-	case *ast.FunctionCall:
-		s.scanFunctionCall(e, result)
-	case *ast.UnaryExpression:
-		if e.Expr != nil {
-			s.scanExpression(e.Expr, result, context)
-		}
-	}
+		return true
+	})
 }
 
 // scanBinaryExpression checks for tautologies and suspicious patterns.
-func (s *Scanner) scanBinaryExpression(expr *ast.BinaryExpression, result *ScanResult, context string) {
+func (s *Scanner) scanBinaryExpression(expr *ast.BinaryExpression, result *ScanResult) {
 	if expr == nil {
 		return
 	}
@@ -677,10 +598,7 @@ func (s *Scanner) scanBinaryExpression(expr *ast.BinaryExpression, result *ScanR
 	if strings.ToUpper(expr.Operator) == "OR" {
 		s.checkOrInjection(expr, result)
 	}
-
-	// Recursively check sub-expressions
-	s.scanExpression(expr.Left, result, context)
-	s.scanExpression(expr.Right, result, context)
+	// sub-expressions are visited by the tree walk in scanStatement
 }
 
 // isTautology checks if an expression is always true.
@@ -712,7 +630,8 @@ func (s *Scanner) isTautology(expr *ast.BinaryExpression) bool {
 	rightIdent, rightIsIdent := expr.Right.(*ast.Identifier)
 
 	if leftIsIdent && rightIsIdent {
-		if leftIdent.Name == rightIdent.Name {
+		// the same column on both sides; "t.id = u.id" compares two different columns
+		if leftIdent.Name == rightIdent.Name && strings.EqualFold(leftIdent.Table, rightIdent.Table) {
 			return true
 		}
 	}
@@ -876,27 +795,7 @@ func (s *Scanner) scanFunctionCall(fn *ast.FunctionCall, result *ScanResult) {
 		}
 	}
 
-	// Recursively check function arguments
-	for _, arg := range fn.Arguments {
-		s.scanExpressionForDangerousFunctions(arg, result)
-	}
-}
-
-// scanExpressionForDangerousFunctions recursively checks for dangerous functions.
-func (s *Scanner) scanExpressionForDangerousFunctions(expr ast.Expression, result *ScanResult) {
-	if expr == nil {
-		return
-	}
-
-	switch e := expr.(type) {
-	case *ast.FunctionCall:
-		s.scanFunctionCall(e, result)
-	case *ast.BinaryExpression:
-		s.scanExpressionForDangerousFunctions(e.Left, result)
-		s.scanExpressionForDangerousFunctions(e.Right, result)
-	case *ast.UnaryExpression:
-		s.scanExpressionForDangerousFunctions(e.Expr, result)
-	}
+	// arguments are visited by the tree walk in scanStatement
 }
 
 // detectCommentPatterns checks raw SQL for comment-based injection.
